@@ -9,4 +9,6 @@ Extraction "c12_model.ml"
   select_version name_cmp route_leader route_listoffsets split_listoffsets route_controller
   route_broker_id split_listgroups route send_request negotiate conn_version
   normalize make_layout filter_metadata find_metadata_topic update pool_init round_trip
-  pool_step pool_run message_class is_splitter keyed_request forces_refresh discover_step.
+  pool_step pool_run message_class is_splitter keyed_request forces_refresh
+  coord_at_version ktype_at_version via_coordinator discover_step discover_run refresh_turn
+  E_deadline E_canceled K_FindCoordinator.
